@@ -187,7 +187,7 @@ func Parse(b []byte) (*Module, error) {
 		wc := int(words[p] >> 16)
 		op := uint16(words[p])
 		in := Inst{Op: op, Words: words[p+1 : p+wc : p+wc]}
-		if info, ok := opTable[op]; ok {
+		if info, ok := lookupOp(op); ok {
 			k := 0
 			if info.hasTyp {
 				if len(in.Words) <= k {
